@@ -182,6 +182,16 @@ def inject(rng, lines):
                            "mv a7, {r}", "addi a7, {r}, 0", "sll a7, {r}, zero"]).format(r=rng.choice(["gp", "tp"]))
         new = L[:i] + [("    " + form, "injected")] + L[i + 1:]
         out.append(("unknown-ecall", new, ("unknown-ecall", {i + 1}, None)))
+    for i in rng.sample(a7s, min(2, len(a7s))):
+        # ... or reloaded from a slot that was written from a register of unknown value which has since been
+        # overwritten with the very constant (seed C05-t sharpened the slot with the register's value after the
+        # store): the slot holds what the register held then, which nobody knows
+        m_ = re.search(r"li a7,\s*(-?\w+)", L[i][0])
+        r_ = rng.choice(["gp", "tp"])
+        if m_:
+            new = L[:i] + [(f"    sw {r_}, -4(sp)", "injected"), (f"    li {r_}, {m_.group(1)}", "injected"),
+                           ("    lw a7, -4(sp)", "injected")] + L[i + 1:]
+            out.append(("unknown-ecall", new, ("unknown-ecall", {i + 3}, None)))
     # 11: straight-line code nothing can reach
     rets = find(L, lambda t, tag: tag in ("ret", "jump", "exit"))
     for i in rng.sample(rets, min(3, len(rets))):
